@@ -530,8 +530,8 @@ pub fn def() -> CheckDef {
         assumptions: vec!["H1 re-export hook for the Pinocchio copies", "the Clock sysvar is the harness's thread clock"],
         subs: vec![
             sub("fee_functions", 2_000_000, 200_000_000, fn_case, |c: &FeeFnCase, l: &mut Local| check_fn(c, l)),
-            sub("pools", 3000, 100_000, pool_history_case, |c: &HistoryCase, l: &mut Local| check_pool_history(c, l)),
-            sub("pool_swap_thresholds", 3000, 100_000, fee_pool_bounds_case, |c: &super::c03::BoundsCase, l: &mut Local| super::c03::check_case(c, l)),
+            sub("pools", 15_000, 300_000, pool_history_case, |c: &HistoryCase, l: &mut Local| check_pool_history(c, l)),
+            sub("pool_swap_thresholds", 10_000, 300_000, fee_pool_bounds_case, |c: &super::c03::BoundsCase, l: &mut Local| super::c03::check_case(c, l)),
         ],
     }
 }
